@@ -6,6 +6,7 @@ CONSTANTS
   MaxOps = 4
   MaxChunks = 3
   Kinds = {"rot", "flush", "flush0"}
+  Orders = "id"
   Windows = "chunks"
   MaxFaults = 1
   MaxSyncFaults = 0
